@@ -7,7 +7,7 @@ from props import c05
 PROP = "C03"
 LEVEL = "proof"
 THEOREM_FILE = "properties/C03.v"
-CASE_DEPS = ["theories/CompileTop.v"]
+CASE_DEPS = ["theories/CompileTop.v", "theories/Checks.v"]
 RULE = ("stream hier-rename: a seeded random hierarchy and the same hierarchy with ONE node's parameters, local variables and "
         "port-size symbols renamed injectively onto the shared name pool (so the new names collide with names used by ancestors, "
         "siblings, descendants and top-level inputs); both are compiled by the real code and compared inside Coq at every "
@@ -38,11 +38,44 @@ def gen_cases(rng, n, max_depth):
         if all(k == v for k, v in pi.items()):
             continue
         out.append({"routine": r, "path": path, "pi": pi})
+        if rng.random() < 0.2 and any(n.get("repetition") for n, _ in H._nodes(r)):
+            # compiled with an additive resource DERIVED on the leaves: it enters every repetition above a leaf, whose scope
+            # the renaming may be about
+            out[-1]["derived_leaf"] = {"name": "dgates", "type": "additive", "of": rng.choice(["T", "G", "Q"]), "a": rng.randint(2, 3), "b": rng.randint(0, 5)}
+    return out
+
+
+def derived_cases(rng, n, max_depth):
+    """A repeated routine (not the root) whose scope is renamed ONTO names of the top-level routine, the hierarchy compiled with
+    an additive resource derived on the leaves: the repeated sum over the child's derived value is written in top-level names
+    already, and must not be read through the repeated routine's scope again."""
+    out = []
+    tries = 0
+    while len(out) < n and tries < 40 * n:
+        tries += 1
+        r = H.gen_hierarchy(rng, max_depth=rng.randint(2, max_depth), p_rep=0.6)
+        if H.count_nodes(r) > 10:
+            continue
+        paths = [p for p in H.all_paths(r) if p and H.node_at(r, p).get("repetition") and H.bound_names(H.node_at(r, p))]
+        if not paths:
+            continue
+        path = rng.choice(paths)
+        names = H.bound_names(H.node_at(r, path))
+        tops = [x for x in r["input_params"]]
+        pool = tops + [x for x in dict.fromkeys(POOL) if x not in tops]
+        head = pool[:max(len(tops), 1)]
+        rng.shuffle(head)
+        images = (head + pool[len(head):])[:len(names)]
+        pi = dict(zip(names, images))
+        if all(k == v for k, v in pi.items()):
+            continue
+        out.append({"routine": r, "path": path, "pi": pi,
+                    "derived_leaf": {"name": "dgates", "type": "additive", "of": rng.choice(["T", "G", "Q"]), "a": rng.randint(2, 3), "b": rng.randint(0, 5)}})
     return out
 
 
 def emit(pairs):
-    lines = [lib.CASE_HEADER.format(imports="RepModel Routine Compile CompileTop", gen_imports="")]
+    lines = [lib.CASE_HEADER.format(imports="RepModel Routine Compile CompileTop Checks", gen_imports="")]
     items = []
     for k, (case, imp) in enumerate(pairs):
         if "a" not in imp:
@@ -61,7 +94,12 @@ def emit(pairs):
         pts = H.points_to_coq(H.make_points(lib.Rng(f"pts-{lib.case_hash(case)}"), names, 3))
         inex = "true" if imp["a"].get("inexact") or imp["b"].get("inexact") else "false"
         backc = E.coq_list([f"({E.coq_string(a)}, {E.coq_string(b)})" for a, b in back])
-        items.append(f"(check_rename_case r{k} i{k} j{k} {backc} {inex} {pts})")
+        dl = case.get("derived_leaf")
+        if dl:
+            items.append(f"(check_rename_case_d {E.coq_string(dl['name'])} RAdditive {E.coq_string(dl['of'])} {E.coq_q(dl['a'])} {E.coq_q(dl['b'])} "
+                         f"r{k} i{k} j{k} {backc} {inex} {pts})")
+        else:
+            items.append(f"(check_rename_case r{k} i{k} j{k} {backc} {inex} {pts})")
     lines.append("Definition results : list (list nat * list nat) :=\n " + E.coq_list(items) + ".\n")
     lines.append("Eval vm_compute in results.\n")
     return "\n".join(lines)
@@ -123,7 +161,7 @@ def streams(tier, seed):
     nested = [{"routine": c["routine"], "path": ["inner"] if c["routine"]["children"][0]["name"] == "inner" else ["leaf"],
                "pi": ({"N": "K", "R": "N"} if c["routine"]["children"][0]["name"] == "inner" else {"N": "K"})}
               for c in c07.nested_iterator_cases()]
-    s1 = mk_stream(lib.load_corpus(PROP, "hier-rename") + nested + gen_cases(rng, n, 3))
+    s1 = mk_stream(lib.load_corpus(PROP, "hier-rename") + nested + gen_cases(rng, n, 3) + derived_cases(rng, 30 if tier == "quick" else 500, 3))
     s2 = dict(c05.mk_stream(lib.load_corpus(PROP, "eval") + mutual_cases(rng, 40 if tier == "quick" else 600)), name="eval-mutual")
     return [s1, s2]
 
